@@ -321,3 +321,43 @@ pub fn near_duplicate(text: &str, src: &mut Src) -> String {
     }
     out.into_iter().collect()
 }
+
+/// Enumerated "repeat" family: prefix + unit x k + suffix for every k up to a
+/// bound.  Crosses every count-based threshold (64 / 256 operators, token
+/// windows, depth counters) at every alignment, deterministically.
+pub const REPEAT_FORMS: &[(&str, &str, &str)] = &[
+    ("a", "[]", ""),
+    ("a", "[]", ".b"),
+    ("", "@ | ", "[*].b"),
+    ("", "@ | ", "a[*][*]"),
+    ("", "@ | ", "a[0][1:]"),
+    ("", "a || ", "[*]"),
+    ("a", ".a", ""),
+    ("a", "[0]", ""),
+    ("a", "[*]", ".b"),
+    ("a", "[?b]", ""),
+    ("a", "[1:]", ""),
+    ("a", " == a", ""),
+    ("a", " && a", ""),
+    ("[", "a[], ", "a]"),
+    ("{", "k: a[], ", "z: a}"),
+    ("", "[] | ", "(@)"),
+    ("length(", "a, ", "a)"),
+    ("[", "a[*], ", "b[*]]"),
+    ("a", ".*", ""),
+    ("a.", "[b].", "b"),
+];
+
+pub fn repeat_text(form: usize, k: usize) -> String {
+    let (p, u, s) = REPEAT_FORMS[form % REPEAT_FORMS.len()];
+    format!("{}{}{}", p, u.repeat(k), s)
+}
+
+pub fn repeat_counts(thorough: bool) -> Vec<usize> {
+    let max = if thorough { 1100 } else { 600 };
+    let mut v: Vec<usize> = (0..=max).collect();
+    if thorough {
+        v.extend([2047, 2048, 2049, 4096, 4097]);
+    }
+    v
+}
